@@ -302,8 +302,15 @@ class _G:
         k = self.i(0, 9)
         cands = [g for g in self.globals if g[1] == target]
         arrs = [g for g in self.globals if g[1][0] == "arr" and g[1][1] == target]
-        if k < 3:
+        if k < 2:
             return self.pick(["0", "(void *)0", "(%s)0" % self.decl(t, "")])
+        if k < 4 and self.ok("init:int-to-pointer-cast"):
+            # integer constant (expression) cast to a pointer: in range, negative, >= 2^63 (the value is not a construct)
+            v = self.pick(["0x1000", "0x20000000", "4096 + 8", "1", "-1", "-2", "-4096", "0xFFFFFFFFFFFFFFFFULL", "0x8000000000000000UL",
+                           "18446744073709551615ull", "-1L", "-(1 << 20)", "0x7fffffffffffffffL", "sizeof(int) * 1024", "~0UL", "0xdeadbeefu"])  # fmt: skip
+            if v.startswith("~") and not self.ok("constexpr:un~"):
+                v = "-1"
+            return "(%s)%s" % (self.pick([self.decl(t, "").strip(), "void *"]), v if v[0] not in "-~" and " " not in v else "(%s)" % v)
         if k < 5 and cands:
             self.feat("init:address-of-global")
             return "&" + self.pick(cands)[0]
